@@ -60,6 +60,10 @@ pub enum Auth {
     Without(Address),
     /// Only the recorded trees at these positions (in recording order), signed as asked.
     Pick(Vec<usize>),
+    /// As `AsRecorded`, and the same parties also consent to whatever sub-calls that fail (and are
+    /// caught by their caller) ask of them. Only for parties that can really sign. With a list, only
+    /// the listed parties consent: if the recording shows anybody else being asked, this is `Only`.
+    Blanket(Vec<Address>),
     /// Use a previously recorded forest (e.g. recorded for other arguments) verbatim.
     Forest(Vec<(ScAddress, SorobanAuthorizedInvocation)>),
 }
@@ -87,6 +91,9 @@ pub struct U {
     ev_cursor: usize,
     nonce: i64,
     pub calls: u64,
+    /// Set by monitors all of whose principals can really sign: one call in three, `AsRecorded` and
+    /// `Only` are run as `Blanket` (the consenting parties also sign for what failing sub-calls ask).
+    pub blanket_ok: bool,
     pub primed: Vec<ScAddress>,
     pub advanced: u32,
 }
@@ -164,6 +171,7 @@ impl U {
             ev_cursor: 0,
             nonce: 1,
             calls: 0,
+            blanket_ok: false,
             primed: Vec::new(),
             advanced: 0,
         }
@@ -486,6 +494,14 @@ impl U {
                     out.push(self.entry(a, inv));
                 }
             }
+            Auth::Blanket(list) => {
+                let allowed: Vec<ScAddress> = list.iter().map(sc_addr).collect();
+                for (a, inv) in recorded {
+                    if allowed.is_empty() || allowed.contains(a) {
+                        out.push(self.entry(a, inv));
+                    }
+                }
+            }
             Auth::Only(list) => {
                 let allowed: Vec<ScAddress> = list.iter().map(sc_addr).collect();
                 for (a, inv) in recorded {
@@ -557,6 +573,11 @@ impl U {
     /// `auth`. A failed call is compared against the pre-state (ledger entries and events).
     pub fn call<T>(&mut self, auth: Auth, f: &dyn Fn(&Env) -> Result<T, String>) -> CallOut<T> {
         self.calls += 1;
+        let auth = match auth {
+            Auth::AsRecorded if self.blanket_ok && self.calls % 3 == 0 => Auth::Blanket(Vec::new()),
+            Auth::Only(l) if self.blanket_ok && self.calls % 3 == 0 => Auth::Blanket(l),
+            a => a,
+        };
         let (recorded_ok, recorded) = match &auth {
             Auth::Nobody => (true, Vec::new()),
             _ => self.record(f),
@@ -564,7 +585,24 @@ impl U {
         let entries = self.entries_for(&auth, &recorded);
         let before = self.snap();
         self.skip_events();
-        self.env.set_auths(&entries);
+        // Auth::Blanket takes "everybody asked signs" further: the same parties also consent
+        // to whatever is asked of them inside sub-calls that fail and are caught by the caller. Such
+        // requests leave no trace in the recorded forest (a failed frame is rolled back), yet a party
+        // may well have signed for them; code that turns a failed sub-call into success is only
+        // reachable this way. Nothing but the recorded parties' consent survives such a run: the
+        // recording run already showed who is asked in the frames that are kept.
+        let blanket = match &auth {
+            Auth::Blanket(list) => {
+                let allowed: Vec<ScAddress> = list.iter().map(sc_addr).collect();
+                recorded_ok && (allowed.is_empty() || recorded.iter().all(|(a, _)| allowed.contains(a)))
+            }
+            _ => false,
+        };
+        if blanket {
+            self.env.host().switch_to_recording_auth(false).unwrap();
+        } else {
+            self.env.set_auths(&entries);
+        }
         let res = f(&self.env);
         self.env.set_auths(&[]);
         let mut events = self.take_events();
@@ -759,24 +797,63 @@ pub fn twin_of(env: &Env, a: &Address) -> Address {
 }
 
 
-/// Function names that occur in a contract's `contract.rs` but are not in `known`: candidates for
-/// entry points the workloads do not know (helpers among them are harmless: calling a name that
-/// is not exported just fails). The sources are read from the tree the harness was built against.
+/// Candidates for entry points the workloads do not know: function names that occur in the
+/// contract's sources, in the shared derive macros or in the shared interfaces of the tree the
+/// harness was built against, that are not in `known`, and that either do not occur anywhere in
+/// the pinned tree (`pinned_fn_names.txt`, written by tools/gen_pinned_fn_names.py) or are names
+/// a derive macro can attach to any contract. Helpers among them are harmless: calling a name
+/// that is not exported just fails.
 pub fn unknown_entry_points(contract_dir: &str, known: &[&str]) -> Vec<String> {
-    let path = format!("{}/../../repo/contracts/{}/src/contract.rs", env!("CARGO_MANIFEST_DIR"), contract_dir);
-    let Ok(text) = std::fs::read_to_string(&path) else {
-        return Vec::new();
-    };
-    let mut out: Vec<String> = Vec::new();
-    let mut rest = text.as_str();
-    while let Some(i) = rest.find("fn ") {
-        let after = &rest[i + 3..];
-        let name: String = after.chars().take_while(|c| c.is_ascii_alphanumeric() || *c == '_').collect();
-        let boundary_ok = i == 0 || !rest.as_bytes()[i - 1].is_ascii_alphanumeric();
-        if boundary_ok && !name.is_empty() && after[name.len()..].starts_with('(') && !known.contains(&name.as_str()) && !out.contains(&name) {
-            out.push(name);
+    // names a derive macro of the shared package can attach to any contract: known only where listed
+    const MOVABLE: &[&str] = &["operator", "transfer_operatorship", "owner", "transfer_ownership", "version", "upgrade", "migrate"];
+    // "<contract dir> <name>": in that contract's contract.rs on the pinned tree; "* <name>": in any other file
+    let pinned: Vec<(&str, &str)> = include_str!("pinned_fn_names.txt").lines().filter_map(|l| l.split_once(' ')).collect();
+    let own_contract_rs = format!("contracts/{}/src/contract.rs", contract_dir);
+    let root = format!("{}/../../repo", env!("CARGO_MANIFEST_DIR"));
+    let mut files: Vec<std::path::PathBuf> = Vec::new();
+    for d in [format!("{}/contracts/{}/src", root, contract_dir), format!("{}/packages/axelar-soroban-std-derive/src", root), format!("{}/packages/axelar-soroban-std/src/interfaces", root)] {
+        let mut stack = vec![std::path::PathBuf::from(d)];
+        while let Some(dir) = stack.pop() {
+            let Ok(rd) = std::fs::read_dir(&dir) else { continue };
+            for e in rd.flatten() {
+                let p = e.path();
+                if p.is_dir() {
+                    if !p.ends_with("testdata") && !p.ends_with("tests") {
+                        stack.push(p);
+                    }
+                } else if p.extension().map(|x| x == "rs").unwrap_or(false) {
+                    files.push(p);
+                }
+            }
         }
-        rest = &rest[i + 3..];
+    }
+    files.sort();
+    let mut out: Vec<String> = Vec::new();
+    for f in files {
+        let Ok(text) = std::fs::read_to_string(&f) else { continue };
+        let in_contract_rs = f.to_string_lossy().ends_with(&own_contract_rs);
+        let mut rest = text.as_str();
+        while let Some(i) = rest.find("fn ") {
+            let after = &rest[i + 3..];
+            let name: String = after.chars().take_while(|c| c.is_ascii_alphanumeric() || *c == '_').collect();
+            let b = rest.as_bytes();
+            let boundary_ok = i == 0 || !(b[i - 1].is_ascii_alphanumeric() || b[i - 1] == b'_');
+            if boundary_ok
+                && !name.is_empty()
+                && after[name.len()..].starts_with('(')
+                && !known.contains(&name.as_str())
+                && if in_contract_rs {
+                    // a name that is new in contract.rs is a candidate even if a helper elsewhere bears it
+                    !pinned.contains(&(contract_dir, name.as_str()))
+                } else {
+                    !pinned.iter().any(|(_, n)| *n == name.as_str()) || MOVABLE.contains(&name.as_str())
+                }
+                && !out.contains(&name)
+            {
+                out.push(name);
+            }
+            rest = &rest[i + 3..];
+        }
     }
     out
 }
@@ -801,3 +878,4 @@ impl U {
         accepted
     }
 }
+
